@@ -40,10 +40,15 @@ def run_fuzz(r, st):
                 candidates.append(os.path.join(root, f))
     limit = st.get("max_seed_size") or (st["max_len"] - 1)
     candidates = [p for p in candidates if os.path.isfile(p) and os.path.getsize(p) <= limit]
+    # seed directories listed under "pinned" are used whole (hand-made seeds that aim at a region); only the rest is sampled
+    pinned_dirs = [c.replace("$REPO", repo).replace("$VERIF", here).rstrip("/") + "/" for c in st.get("pinned", [])]
+    pinned = [p for p in candidates if any(p.startswith(d) for d in pinned_dirs)]
+    candidates = [p for p in candidates if p not in pinned]
     if st.get("max_seeds") and len(candidates) > st["max_seeds"]:
         # deterministic sample: order by a hash of (VERIF_SEED, path)
         candidates.sort(key=lambda p: hashlib.sha1(("%d:%s" % (r.seed, p)).encode()).hexdigest())
         candidates = sorted(candidates[: st["max_seeds"]])
+    candidates = sorted(pinned) + candidates
     if st.get("random_seeds"):
         import random
         rng = random.Random(r.seed * 7919 + 13)
